@@ -31,7 +31,7 @@ EXPLANATION = (
     "equal to / below the capacity), returns OK with the decoded size and hands the library the caller's "
     "extents; a frame larger than the destination is an error; (9) a read that spans pages appends values, "
     "definition and repetition levels where the previous page stopped (shared with C02.7). "
-    "(10) what a decoding loop reads through a pointer cursor it steps over before its next iteration (R40: no path from a read through the cursor to the next iteration's read without a store to the cursor - a `continue` may skip an element that was not read, not one that was). Decides these clauses, not that decoded values/levels equal the stored ones.")
+    "(10) what a decoding loop reads through a pointer cursor it steps over before its next iteration (R40: no path from a read through the cursor to the next iteration's read without a store to the cursor - a `continue` may skip an element that was not read, not one that was). (11) the RLE/bit-packing hybrid decoder, executed on streams written from the specification (several groups per bit-packed run, zero-length runs, a padded final group, runs longer than wanted; headers and RLE values concrete, packed payload opaque, group unpacker hooked), returns the values and the count the specification names (shared with C12.2). Decides these clauses, not that decoded values/levels equal the stored ones.")
 
 PR = "src/reader/page_reader.c"
 PW = "src/writer/page_writer.c"
@@ -48,6 +48,11 @@ def _eval_fn(P, fn, args):
 
 def run(ctx):
     P = ctx.P
+    ctx.clause("C06.11 the hybrid decoder reads streams written from the specification - multi-group bit-packed runs, zero-length runs (an empty RLE run still carries its value), padded final groups, over-long runs - as the specification does (rule shared with C12.2)")
+    from ..rules import encspec
+    nhd = encspec.check_hybrid_decoder(ctx)
+    ctx.floor("C06 specification streams through the hybrid decoder", nhd, 100)
+    ctx.count("level_decoder_streams", encspec.check_levels_decoder(ctx))
     ctx.clause("C06.10 what a decoding loop reads through a pointer cursor it steps over before its next iteration (no group, run or value is decoded twice)")
     from ..rules import loopcursor
     nlc = loopcursor.check(ctx, [f for f in P.lib_functions() if P.rel(f.file).startswith(("src/encoding/", "src/compression/", "src/thrift/", "src/core/", "src/reader/"))])
